@@ -15,6 +15,7 @@ EXTENDS Integers, Sequences, FiniteSets, TLC, Json, IOUtils
 Rec == ndJsonDeserialize(IOEnv.TRACE)
 
 VARIABLES loc, runner, atask, slotN, localN, remaining, delayQ, nerrors, scopeEnd,
+          decVal,   \* decVal[a]: value activations_remaining had after task a's fetch_sub (-1: not yet)
           l         \* index of the next event to consume
 
 (* One link per trace file.  Its first event gives the number of groups; the delayed group is the
@@ -25,12 +26,12 @@ Delayed == {Rec[k].g : k \in {j \in 1..Len(Rec) : Rec[j].ev = "ActEnd" /\ Rec[j]
 
 P == INSTANCE GcProto
 
-tvars == <<loc, runner, atask, slotN, localN, remaining, delayQ, nerrors, scopeEnd, l>>
+tvars == <<loc, runner, atask, slotN, localN, remaining, delayQ, nerrors, scopeEnd, decVal, l>>
 
 Ev == Rec[l]
-IsEv(name) == l <= Len(Rec) /\ Rec[l].ev = name /\ l' = l + 1
+IsEv(name) == l <= Len(Rec) /\ Rec[l].ev = name /\ l' = l + 1 /\ UNCHANGED decVal
 
-TInit == P!PInit /\ l = 1 /\ TLCSet(1, 1)
+TInit == P!PInit /\ l = 1 /\ decVal = [g \in Groups |-> -1] /\ TLCSet(1, 1)
 
 TScopeBegin == l = 1 /\ IsEv("ScopeBegin") /\ UNCHANGED <<loc, runner, atask, slotN, localN, remaining, delayQ, nerrors, scopeEnd>>
 
@@ -68,10 +69,23 @@ TSlotSwap ==
 
 TTaskStart == IsEv("TaskStart") /\ Ev.g \in Groups /\ P!TaskStart(Ev.g)
 
+(* The fetch_sub is lock-free, so its event is logged some time after the atomic step itself and
+   events of different tasks may appear out of counter order.  The step is therefore silent
+   (TSilentDec) and the event only has to report the value the model's counter had for that task:
+   the values returned by the atomic operation determine the real order. *)
+TSilentDec ==
+    /\ l <= Len(Rec)
+    /\ \E a \in Groups :
+          /\ P!Dec(a)
+          /\ decVal' = [decVal EXCEPT ![a] = remaining']
+    /\ UNCHANGED l
+
 TActDec ==
-    /\ IsEv("ActDec") /\ Ev.g \in Groups
-    /\ P!Dec(Ev.g)
-    /\ remaining' = Ev.remaining
+    /\ l <= Len(Rec) /\ Rec[l].ev = "ActDec" /\ l' = l + 1
+    /\ Ev.g \in Groups
+    /\ decVal[Ev.g] = Ev.remaining
+    /\ decVal' = [decVal EXCEPT ![Ev.g] = -2]
+    /\ UNCHANGED <<loc, runner, atask, slotN, localN, remaining, delayQ, nerrors, scopeEnd>>
 
 TDelayPop == IsEv("DelayPop") /\ Ev.by \in Groups /\ Ev.g \in Groups /\ P!DelayPop(Ev.by, Ev.g)
 
@@ -89,11 +103,11 @@ TScopeEnd ==
 TSilentDrain ==
     /\ l <= Len(Rec)
     /\ \E a \in Groups : P!DrainEmpty(a)
-    /\ UNCHANGED l
+    /\ UNCHANGED <<l, decVal>>
 
 TNext ==
     \/ TScopeBegin \/ TActBegin \/ TSendLocal \/ TSend \/ TErr \/ TActEnd \/ TItem \/ TFail
-    \/ TSlotPark \/ TSlotSwap \/ TTaskStart \/ TActDec \/ TDelayPop \/ TScopeEnd \/ TSilentDrain
+    \/ TSlotPark \/ TSlotSwap \/ TTaskStart \/ TActDec \/ TDelayPop \/ TScopeEnd \/ TSilentDrain \/ TSilentDec
 
 TSpec == TInit /\ [][TNext]_tvars
 
